@@ -129,6 +129,11 @@ func (nc *nilCtx) mayBeNil0(v ssa.Value) bool {
 	case *ssa.Alloc, *ssa.MakeClosure, *ssa.Function, *ssa.MakeMap, *ssa.MakeSlice, *ssa.FieldAddr, *ssa.IndexAddr, *ssa.Global, *ssa.FreeVar, *ssa.MakeChan, *ssa.Slice:
 		return false
 	case *ssa.MakeInterface:
+		// a pointer that may be nil, wrapped in an interface: the interface is not nil, the pointer in it is
+		// (`var k any = sp.rsaKey`; `k.(*rsa.PublicKey)` then succeeds and yields nil)
+		if _, isPtr := x.X.Type().Underlying().(*types.Pointer); isPtr && nc.mayBeNil(x.X) {
+			return nc.note(v, "interface holding "+nc.why[x.X])
+		}
 		return false
 	case *ssa.ChangeType:
 		return nc.mayBeNil(x.X)
@@ -144,6 +149,9 @@ func (nc *nilCtx) mayBeNil0(v ssa.Value) bool {
 		}
 		return false
 	case *ssa.TypeAssert:
+		if _, isPtr := x.AssertedType.Underlying().(*types.Pointer); isPtr && !x.CommaOk && nc.mayBeNil(x.X) {
+			return nc.note(v, nc.why[x.X])
+		}
 		return false
 	case *ssa.UnOp:
 		if x.Op != token.MUL {
@@ -304,6 +312,12 @@ func (nc *nilCtx) mayBeNil0(v ssa.Value) bool {
 	case *ssa.Extract:
 		if c, ok := x.Tuple.(*ssa.Call); ok {
 			return nc.callResultMayBeNil(v, c, x.Index)
+		}
+		if ta, ok := x.Tuple.(*ssa.TypeAssert); ok && x.Index == 0 {
+			// p, ok := k.(*T): with ok true p is what the interface holds - nil if a nil *T was wrapped
+			if _, isPtr := ta.AssertedType.Underlying().(*types.Pointer); isPtr && nc.mayBeNil(ta.X) {
+				return nc.note(v, nc.why[ta.X])
+			}
 		}
 		return false
 	case *ssa.Call:
@@ -1237,6 +1251,61 @@ func checkC09core(cx *Ctx, r *Report, withBCE bool) {
 			}
 		}
 	}
+	// make([]T, n) with a length that comes from outside: a negative value panics ("makeslice: len out of range")
+	for _, fn := range fns {
+		for _, b := range fn.Blocks {
+			for _, in := range b.Instrs {
+				ms, ok := in.(*ssa.MakeSlice)
+				if !ok {
+					continue
+				}
+				for _, lv := range []ssa.Value{ms.Len, ms.Cap} {
+					if lv == nil || nonNegativeLen(lv, 0) {
+						continue
+					}
+					lower := false
+					p := fx.path(stripConv(lv))
+					for _, a := range fx.AtomsAt(ms) {
+						// !(n < 0), 0 <= n, n > 0, n >= k ...
+						if a.Op == "LT" && a.Neg && a.A == p && strings.HasPrefix(a.B, "const:") && !strings.HasPrefix(a.B, "const:-") {
+							lower = true
+						}
+						if a.Op == "LT" && !a.Neg && a.B == p && strings.HasPrefix(a.A, "const:") && !strings.HasPrefix(a.A, "const:-") {
+							lower = true
+						}
+					}
+					r.Check(lower, "R-BCE", w.FuncKey(fn)+":make("+p+")", w.InstrPos(ms), "the length is tested against a non-negative lower bound", "make() with the length "+p+", which is not a length / constant and is not tested to be non-negative (e.g. Request.ContentLength is -1 for chunked bodies): a negative value panics")
+				}
+			}
+		}
+	}
+	// library functions that dereference a pointer argument without testing it
+	for _, fn := range fns {
+		for _, c := range callsIn(fn) {
+			idxs, known := derefsPointerArg[calleeName(c)]
+			if !known {
+				continue
+			}
+			for _, i := range idxs {
+				if i >= len(c.Common().Args) {
+					continue
+				}
+				ptr := c.Common().Args[i]
+				nDeref++
+				if !nc.mayBeNil(ptr) {
+					continue
+				}
+				nNilable++
+				key := w.FuncKey(fn) + ":" + fx.path(ptr)
+				in := c.(ssa.Instruction)
+				if nc.guardedAt(in, ptr) {
+					r.Ok("R-NIL", key, w.InstrPos(in), "argument of "+shortCallee(calleeName(c))+" guarded by a nil test")
+					continue
+				}
+				r.Fail("R-NIL", key, w.InstrPos(in), fmt.Sprintf("%s is handed %s, which may be nil (%s), and dereferences it: the handler panics", shortCallee(calleeName(c)), fx.path(ptr), nc.why[ptr]))
+			}
+		}
+	}
 	r.Extra["dereference_sites"] = nDeref
 	r.Extra["nilable_dereferences"] = nNilable
 	if nDeref < 200 {
@@ -1999,6 +2068,66 @@ func keyOfSameMap(fx *Facts, lk *ssa.Lookup) bool {
 		default:
 			return false
 		}
+	}
+	return false
+}
+
+// derefsPointerArg: standard-library functions that dereference the listed pointer arguments unconditionally.
+var derefsPointerArg = map[string][]int{
+	"crypto/rsa.VerifyPKCS1v15": {0}, "crypto/rsa.VerifyPSS": {0}, "crypto/dsa.Verify": {0}, "crypto/ecdsa.Verify": {0}, "crypto/ecdsa.VerifyASN1": {0},
+	"crypto/rsa.SignPKCS1v15": {1}, "crypto/rsa.SignPSS": {1}, "crypto/x509.MarshalPKCS1PrivateKey": {0}, "crypto/x509.MarshalPKCS1PublicKey": {0},
+	"crypto/rsa.EncryptPKCS1v15": {1}, "crypto/rsa.DecryptPKCS1v15": {1},
+}
+
+func stripConv(v ssa.Value) ssa.Value {
+	for {
+		switch x := v.(type) {
+		case *ssa.Convert:
+			v = x.X
+		case *ssa.ChangeType:
+			v = x.X
+		default:
+			return v
+		}
+	}
+}
+
+// nonNegativeLen: v is a constant >= 0, a len()/cap(), or sums / products / min / max of such.
+func nonNegativeLen(v ssa.Value, depth int) bool {
+	if depth > 6 {
+		return false
+	}
+	v = stripConv(v)
+	if i, ok := constInt(v); ok {
+		return i >= 0
+	}
+	switch x := v.(type) {
+	case *ssa.Call:
+		if b, ok := x.Call.Value.(*ssa.Builtin); ok {
+			switch b.Name() {
+			case "len", "cap":
+				return true
+			case "min", "max":
+				for _, a := range x.Call.Args {
+					if !nonNegativeLen(a, depth+1) {
+						return false
+					}
+				}
+				return true
+			}
+		}
+	case *ssa.BinOp:
+		switch x.Op {
+		case token.ADD, token.MUL, token.QUO, token.SHR:
+			return nonNegativeLen(x.X, depth+1) && nonNegativeLen(x.Y, depth+1)
+		}
+	case *ssa.Phi:
+		for _, e := range x.Edges {
+			if e != ssa.Value(x) && !nonNegativeLen(e, depth+1) {
+				return false
+			}
+		}
+		return len(x.Edges) > 0
 	}
 	return false
 }
